@@ -388,3 +388,50 @@ func IsErrorType(t types.Type) bool {
 func TrimModule(s string) string {
 	return strings.ReplaceAll(s, Module+"/", "")
 }
+
+// CellAliases returns v together with the loads that read v back from a local
+// cell it was spilled into (named results and captured variables are
+// heap/stack cells in SSA): a load of cell A aliases v when the closest
+// preceding store to A in the same block stores v, or when v's store is the
+// only store to A.
+func CellAliases(v ssa.Value) map[ssa.Value]bool {
+	out := map[ssa.Value]bool{v: true}
+	refs := v.Referrers()
+	if refs == nil {
+		return out
+	}
+	for _, u := range *refs {
+		st, ok := u.(*ssa.Store)
+		if !ok || st.Val != v {
+			continue
+		}
+		al, ok := st.Addr.(*ssa.Alloc)
+		if !ok {
+			continue
+		}
+		nStores := 0
+		for _, w := range *al.Referrers() {
+			if _, isSt := w.(*ssa.Store); isSt {
+				nStores++
+			}
+		}
+		b := st.Block()
+		idx := InstrBlockIndex(st)
+		for _, in := range b.Instrs[idx+1:] {
+			if st2, isSt := in.(*ssa.Store); isSt && st2.Addr == ssa.Value(al) {
+				break
+			}
+			if ld, isLd := in.(*ssa.UnOp); isLd && ld.Op == token.MUL && ld.X == ssa.Value(al) {
+				out[ld] = true
+			}
+		}
+		if nStores == 1 {
+			for _, w := range *al.Referrers() {
+				if ld, isLd := w.(*ssa.UnOp); isLd && ld.Op == token.MUL {
+					out[ld] = true
+				}
+			}
+		}
+	}
+	return out
+}
